@@ -456,6 +456,42 @@ def r3_floor_ceil_pairing(repo=None):
     return r
 
 
+def flag_expression(rhs):
+    """formula of a flag assigned a boolean expression (`a && b`, `!(a || b)`, `c ? 1 : 0`, a one-line helper returning one); None
+    for anything else"""
+    from .. import cbool
+    t = rhs.strip(casts=True)
+    if t.kind == "ConditionalOperator" and len(t.children) == 3:
+        a, b = t.children[1].intval(), t.children[2].intval()
+        if (a, b) == (1, 0):
+            return cbool.truth(t.children[0])
+        if (a, b) == (0, 1):
+            return ("not", cbool.truth(t.children[0]))
+        return None
+    if (t.kind == "BinaryOperator" and t.opcode in ("&&", "||")) or (t.kind == "UnaryOperator" and t.opcode == "!"):
+        return cbool.truth(t)
+    if t.kind == "CallExpr" and t.callee in t.tu.functions:
+        f = cbool.truth(t)
+        return f if f[0] != "atom" else None
+    return None
+
+
+def flag_is_one(fn, FE):
+    """formula (over cbool atoms) of the states in which the flag is 1: the disjunction of the path conditions of its `= 1` stores,
+    or the expression it is assigned"""
+    from .. import cbool
+    sts = [(node, rhs) for path, node, rhs, kind in clib.stores(fn) if path == FE and rhs is not None]
+    if len(sts) == 1 and sts[0][1].strip(casts=True).intval() is None:
+        f = flag_expression(sts[0][1])
+        if f is None:
+            raise AnalysisError("%s: the expression assigned to `%s` is not a boolean expression this rule reads" % (fn.name, FE))
+        return ("and", cbool.path_condition(sts[0][0], fn), f), sts[0][0]
+    ones = [node for node, rhs in sts if rhs.strip(casts=True).intval() == 1]
+    if not ones:
+        raise AnalysisError("%s: assignment %s = 1 not found" % (fn.name, FE))
+    return cbool.disj([cbool.path_condition(o, fn) for o in ones]), ones[0]
+
+
 def exists_flag(fn, g=None):
     """the local of the write loop that says "continue in the open file": the plain local tested alone in a condition from
     whose false side digital_rf_create_hdf5_file is reached, and that is only ever assigned integer constants"""
@@ -475,6 +511,8 @@ def exists_flag(fn, g=None):
                 sts = [rhs for path, node, rhs, kind in clib.stores(fn) if path == v]
                 if sts and all(kind_ok.strip(casts=True).intval() is not None for kind_ok in sts):
                     cands.add(v)
+                elif len(sts) == 1 and flag_expression(sts[0]) is not None:
+                    cands.add(v)        # `flag = (a && !strcmp(..) && !strcmp(..))`, directly or through a one-line helper
     if len(cands) != 1:
         raise AnalysisError("%s: the flag that decides between the open file and a new one was not found exactly once (%s)" % (fn.name, sorted(cands)))
     return cands.pop()
@@ -489,8 +527,10 @@ def r4_new_file_on_name_change(repo=None):
     FE = exists_flag(fn, g)
     ones = [n for n in g.nodes if n.kind == "stmt" and n.ast.kind == "BinaryOperator" and n.ast.opcode == "="
             and n.ast.children[0].path() == FE and n.ast.children[1].intval() == 1]
+    expr_form = None
     if not ones:
-        raise AnalysisError("assignment %s = 1 not found" % FE)
+        # the flag is assigned one boolean expression: decided on the formula instead of on the edges of the CFG
+        expr_form = flag_is_one(fn, FE)
     cmp_nodes = {}
     # the names derived for this sample: the two buffers handed to digital_rf_get_subdir_file
     nm = fn.calls(("digital_rf_get_subdir_file",))
@@ -505,7 +545,43 @@ def r4_new_file_on_name_change(repo=None):
                     cmp_nodes["sub_directory"] = n
                 if a == {OBJ + "->basename", d_base}:
                     cmp_nodes["basename"] = n
-    for what in ("sub_directory", "basename"):
+    if expr_form is not None:
+        import itertools
+        from .. import cbool
+        f1, at = expr_form
+        calls = {}
+        for c in at.calls(("strcmp", "strncmp")):
+            a = {alias_path(fn, c.args[0]), alias_path(fn, c.args[1])}
+            if a == {OBJ + "->sub_directory", d_subdir}:
+                calls["sub_directory"] = c
+            if a == {OBJ + "->basename", d_base}:
+                calls["basename"] = c
+        names = sorted(cbool.atoms(f1))
+        for what in ("sub_directory", "basename"):
+            if what not in calls:
+                r.violation(LIB, F, "no strcmp of %s with the derived name" % what,
+                            "the decision to continue in the open file ignores the derived %s: samples of a new period would be "
+                            "appended to the old file" % what, line=at.line)
+                continue
+            an = cbool._text(calls[what].strip(casts=True), {})
+            if an not in names:
+                raise AnalysisError("%s: the comparison of %s is not an atom of the flag's expression %s" % (F, what, cbool.show(f1)[:100]))
+            if len(names) > 14:
+                raise AnalysisError("%s: flag expression too large" % F)
+            free = [n_ for n_ in names if n_ != an]
+            sat = None
+            for bits in itertools.product((False, True), repeat=len(free)):
+                val = dict(zip(free, bits))
+                val[an] = True          # strcmp(...) non-zero: the names differ
+                if cbool.ev(f1, val):
+                    sat = val
+                    break
+            if sat is not None:
+                r.violation(LIB, F, "%s = 1 possible when %s differs" % (FE, what),
+                            "the open file is kept although the derived %s differs (%s)" % (what, cbool.show(f1)[:120]), line=at.line)
+            else:
+                r.ok("%s:%s %s" % (LIB, calls[what].line, F), "%s is 1 only if strcmp(%s) reports equality (%s)" % (FE, what, cbool.show(f1)[:100]))
+    for what in (("sub_directory", "basename") if expr_form is None else ()):
         if what not in cmp_nodes:
             r.violation(LIB, F, "no strcmp of %s with the derived name" % what,
                         "the decision to continue in the open file ignores the derived %s: samples of a new period would be "
@@ -806,12 +882,94 @@ def r8_remembered_subdir_is_current(repo=None, rid="C04.R8"):
     return r
 
 
+def r9_target_file_derived_from_the_sample(repo=None, rid="C04.R9"):
+    """'The name of the file a sample goes to is a function of its index': in the per-file write step the sub-directory, the base
+    name, the number of samples left in the file and the file's capacity are the outputs of digital_rf_get_subdir_file(sample).
+    Who-may-write rule on those four locals: any other writer whose sources read a *mutable* field of the writer object (the
+    remembered names, a cached window) makes the target a function of the writer's history - and the comparison of the derived
+    names with the remembered ones (C04.R4) a comparison of the remembered names with themselves: after a refused or failed
+    roll-over the next samples go into the wrong file, at the offsets of another."""
+    r = Rule(rid, "the target file (names, samples left, capacity) of a write is written only by the naming function of the sample")
+    tu = cfront.lib(repo)
+    fn = tu.fn("digital_rf_write_samples_to_file")
+    F = fn.name
+    nm = fn.calls(("digital_rf_get_subdir_file",))
+    if len(nm) != 1 or len(nm[0].args) < 6:
+        raise AnalysisError("%s: the call of digital_rf_get_subdir_file that derives the names was not found exactly once" % F)
+    outs = []
+    for a in nm[0].args[2:6]:
+        t = a.strip(casts=True)
+        if t.kind == "UnaryOperator" and t.opcode == "&":
+            t = t.children[0].strip(casts=True)
+        p = t.path()
+        if p is None or "->" in p:
+            raise AnalysisError("%s: output argument `%s` of digital_rf_get_subdir_file is not a local" % (F, a.nsrc[:40]))
+        outs.append(p)
+
+    def state_reads(node):
+        return sorted({x.name for x in node.walk() if x.kind == "MemberExpr" and x.children and x.children[0].path() == OBJ
+                       and x.name not in clib.CONFIG_FIELDS})
+    for p in outs:
+        others = []
+        for path, node, rhs, kind in clib.stores(fn):
+            if path != p:
+                continue
+            if kind.startswith("call:"):
+                if node is nm[0] or any(x is nm[0] for x in node.walk()):
+                    continue
+                srcs = list(node.args[1:])
+            elif rhs is not None:
+                srcs = [rhs]
+            else:
+                continue
+            others.append((node, [f_ for s_ in srcs for f_ in state_reads(s_)]))
+        bad = [(n_, fl) for n_, fl in others if fl]
+        if bad:
+            n_, fl = bad[0]
+            r.violation(LIB, F, n_.nsrc[:80], "`%s` - an output of the naming function - is also written from the writer's remembered state "
+                        "(%s): the file a sample goes to then depends on earlier calls (a window or name remembered before the roll-over "
+                        "succeeded stays behind when it is refused), samples land in a file of another period at another offset" % (
+                            p, ", ".join(fl)), line=n_.line)
+        else:
+            r.ok("%s:%s %s `%s`" % (LIB, nm[0].line, F, p), "written by digital_rf_get_subdir_file(sample)%s, never from mutable writer state" % (
+                " and %d other statement(s) that read no writer state" % len(others) if others else ""))
+    # the sample the names are derived from: the sample of the block description at samples_written - the same one the index rows
+    # and the end-of-file cut are computed from - and not the writer's own cursor
+    a1 = nm[0].args[1].strip(casts=True)
+    p1 = a1.path()
+    defs = []
+    if p1 is not None and "->" not in p1:
+        defs = [rhs for path, node, rhs, kind in clib.stores(fn) if path == p1 and rhs is not None]
+        for d in fn.find("VarDecl"):
+            if d.name == p1 and d.children:
+                defs.append(d.children[-1])
+    srcs = defs if defs else [a1]
+    fl = sorted({f_ for s_ in srcs for f_ in state_reads(s_)})
+    site = "%s:%s %s sample argument `%s`" % (LIB, nm[0].line, F, a1.nsrc[:40])
+    idx_calls = fn.calls(("digital_rf_create_rf_data_index",))
+    if fl:
+        r.violation(LIB, F, "digital_rf_get_subdir_file(.., %s, ..)" % a1.nsrc[:40], "the sample that selects the file is taken from the writer's "
+                    "remembered state (%s) and not from the block description of this call: when a gap of a block write straddles a "
+                    "file boundary the names and the capacity are those of the file after the last sample stored, while the index "
+                    "rows and the cut are computed for the next block's sample - samples land in a file whose window does not "
+                    "contain them" % ", ".join(fl), line=nm[0].line)
+    elif defs and all(any(x.kind == "CallExpr" and x.callee == "digital_rf_get_global_sample" for x in d_.walk()) for d_ in defs):
+        same = [c for c in idx_calls if any(a_.strip(casts=True).path() == p1 for a_ in c.args)]
+        if idx_calls and not same:
+            raise AnalysisError("%s: the index builder is not handed the sample `%s` the names are derived from: not decided" % (F, p1))
+        r.ok(site, "the sample of the block description at samples_written (digital_rf_get_global_sample), also handed to the index builder")
+    else:
+        raise AnalysisError("%s: where the sample argument `%s` of digital_rf_get_subdir_file comes from was not recognised" % (F, a1.nsrc[:40]))
+    r.guard(5)
+    return r
+
+
 def rules(repo=None):
     from . import c01
     return [lambda: r1_integer_only(repo), lambda: r2_pure_function(repo), lambda: r3_floor_ceil_pairing(repo),
             lambda: r4_new_file_on_name_change(repo), lambda: r5_cadence_rule(repo),
             lambda: c01.r2_name_format_agreement(repo, rid="C04.R6"), lambda: r7_truncation_siblings(repo),
-            lambda: r8_remembered_subdir_is_current(repo)]
+            lambda: r8_remembered_subdir_is_current(repo), lambda: r9_target_file_derived_from_the_sample(repo)]
 
 
 EXPLANATION = (
@@ -828,7 +986,9 @@ EXPLANATION = (
     "directory computed for this sample. R2 also: the C library's calendar functions (gmtime, localtime, their _r "
     'variants, mktime ...) count as impure - they read the TZ database and gmtime / localtime share one static buffer '
     "between threads - and the Python functions that render a sub-directory name (strftime('%Y-%m-%dT%H-%M-%S')) do not "
-    'call fromtimestamp / utcfromtimestamp / time.gmtime. Does NOT decide that the floor/ceil arithmetic is right.')
+    'call fromtimestamp / utcfromtimestamp / time.gmtime. R9: in the per-file write step the four outputs of the naming function '
+    '(sub-directory, base name, samples left, capacity) have no other writer that reads mutable writer state (a remembered '
+    'name or window). Does NOT decide that the floor/ceil arithmetic is right.')
 TECHNIQUE = ('clang JSON AST; typed backward slice (integer-only); purity/effects of naming functions and their helpers; def-use pairing of floor/ceil helpers; CFG must-pass; linear-form sibling comparison')
 ASSUMPTIONS = ["clang's expression types are the types the compiler uses", "gmtime is a pure function of its argument"]
 FILES = [C_LIB, "python/digital_rf/digital_rf_hdf5.py", "python/digital_rf/list_drf.py"]
